@@ -171,7 +171,9 @@ func gpermGen(rng *hx.Rng, n int, tier string, w *hx.Writer) {
 		default:
 			sc, tag = genDiamond(r), "diamond"
 		}
-		runPermGroup(sc, k, nat, []string{tag}, w)
+		if active() {
+			runPermGroup(sc, k, nat, []string{tag}, w)
+		}
 	}
 }
 
